@@ -21,6 +21,7 @@ var checks = map[string]func(*ev.Ctx){
 	"C05": props.C05,
 	"C06": props.C06,
 	"C12": props.C12,
+	"C16": props.C16,
 }
 
 func main() {
